@@ -120,6 +120,17 @@ func (u *Unmarshaler) fillMap(fieldType reflect.Type, value reflect.Value, mapVa
 		return errValueNotSettable
 	}
 
+	// 指向 map 的指针字段：填充其指向的 map，再让字段指向它
+	if fieldType.Kind() == reflect.Ptr {
+		target := reflect.New(fieldType.Elem())
+		if err := u.fillMap(fieldType.Elem(), target.Elem(), mapValue); err != nil {
+			return err
+		}
+
+		value.Set(target)
+		return nil
+	}
+
 	fieldKeyType := fieldType.Key()
 	fieldElemType := fieldType.Elem()
 	targetValue, err := u.generateMap(fieldKeyType, fieldElemType, mapValue)
@@ -159,6 +170,17 @@ func (u *Unmarshaler) fillMapFromString(value reflect.Value, mapValue any) error
 func (u *Unmarshaler) fillSlice(fieldType reflect.Type, value reflect.Value, mapValue any) error {
 	if !value.CanSet() {
 		return errValueNotSettable
+	}
+
+	// 指向切片的指针字段：填充其指向的切片，再让字段指向它
+	if fieldType.Kind() == reflect.Ptr {
+		target := reflect.New(fieldType.Elem())
+		if err := u.fillSlice(fieldType.Elem(), target.Elem(), mapValue); err != nil {
+			return err
+		}
+
+		value.Set(target)
+		return nil
 	}
 
 	baseType := fieldType.Elem()
@@ -206,7 +228,7 @@ func (u *Unmarshaler) fillSlice(fieldType reflect.Type, value reflect.Value, map
 				conv.Index(i).Set(target.Elem())
 			}
 		case reflect.Slice:
-			if err := u.fillSlice(dereffedBaseType, conv.Index(i), ithValue); err != nil {
+			if err := u.fillSlice(baseType, conv.Index(i), ithValue); err != nil {
 				return err
 			}
 		default:
@@ -225,6 +247,17 @@ func (u *Unmarshaler) fillSlice(fieldType reflect.Type, value reflect.Value, map
 
 func (u *Unmarshaler) fillSliceFromString(fieldType reflect.Type, value reflect.Value,
 	mapValue any) error {
+	// 指向切片的指针字段：填充其指向的切片，再让字段指向它
+	if fieldType.Kind() == reflect.Ptr {
+		target := reflect.New(fieldType.Elem())
+		if err := u.fillSliceFromString(fieldType.Elem(), target.Elem(), mapValue); err != nil {
+			return err
+		}
+
+		value.Set(target)
+		return nil
+	}
+
 	var slice []any
 	switch v := mapValue.(type) {
 	case fmt.Stringer:
@@ -345,7 +378,7 @@ func (u *Unmarshaler) generateMap(keyType, elemType reflect.Type, mapValue any) 
 
 		switch dereffedElemKind {
 		case reflect.Slice:
-			target := reflect.New(dereffedElemType)
+			target := reflect.New(elemType)
 			if err := u.fillSlice(elemType, target.Elem(), keythData); err != nil {
 				return emptyValue, err
 			}
@@ -373,12 +406,18 @@ func (u *Unmarshaler) generateMap(keyType, elemType reflect.Type, mapValue any) 
 				return emptyValue, errTypeMismatch
 			}
 
-			innerValue, err := u.generateMap(elemType.Key(), elemType.Elem(), keythMap)
+			innerValue, err := u.generateMap(dereffedElemType.Key(), dereffedElemType.Elem(), keythMap)
 			if err != nil {
 				return emptyValue, err
 			}
 
-			targetValue.SetMapIndex(key, innerValue)
+			if fieldElemKind == reflect.Ptr {
+				target := reflect.New(dereffedElemType)
+				target.Elem().Set(innerValue)
+				targetValue.SetMapIndex(key, target)
+			} else {
+				targetValue.SetMapIndex(key, innerValue)
+			}
 		default:
 			target := reflect.New(dereffedElemType)
 			switch v := keythData.(type) {
